@@ -130,21 +130,21 @@ impl IdentifierParser for String {
             Pattern::Any
         } else if string.starts_with('*') && string.ends_with('*') {
             let s = if insensitive {
-                string[1..string.len() - 1].to_lowercase()
+                string[1..string.len() - 1].to_ascii_lowercase()
             } else {
                 string[1..string.len() - 1].to_string()
             };
             Pattern::Contains(s)
         } else if let Some(s) = string.strip_prefix('*') {
             let s = if insensitive {
-                s.to_lowercase()
+                s.to_ascii_lowercase()
             } else {
                 s.to_string()
             };
             Pattern::EndsWith(s)
         } else if let Some(s) = string.strip_suffix('*') {
             let s = if insensitive {
-                s.to_lowercase()
+                s.to_ascii_lowercase()
             } else {
                 s.to_string()
             };
@@ -155,14 +155,14 @@ impl IdentifierParser for String {
         {
             // NOTE: A lone quote is not a quoted string, it is matched literally below
             let s = if insensitive {
-                string[1..string.len() - 1].to_lowercase()
+                string[1..string.len() - 1].to_ascii_lowercase()
             } else {
                 string[1..string.len() - 1].to_string()
             };
             Pattern::Exact(s)
         } else {
             let s = if insensitive {
-                string.to_lowercase()
+                string.to_ascii_lowercase()
             } else {
                 string.to_owned()
             };
